@@ -9,12 +9,17 @@ PASSES = ["default", "simple", "heutopo", "mamba", "unroll"]
 
 
 def sig_of(obj, name):
-  """attribute access that understands list elements: 'xs[2]' -> getattr(obj, 'xs')[2]"""
-  if "[" not in name: return getattr(obj, name)
-  base, rest = name.split("[", 1)
-  v = getattr(obj, base)
-  for idx in rest.rstrip("]").split("]["):
-    v = v[int(idx)]
+  """attribute access that understands list elements and interface members:
+  'xs[2]' -> obj.xs[2];  'recv.msg' -> obj.recv.msg;  'ifcs[1].val' -> obj.ifcs[1].val"""
+  v = obj
+  for part in name.split("."):
+    if "[" in part:
+      base, rest = part.split("[", 1)
+      v = getattr(v, base)
+      for idx in rest.rstrip("]").split("]["):
+        v = v[int(idx)]
+    else:
+      v = getattr(v, part)
   return v
 
 _patched = False
@@ -102,7 +107,7 @@ class Sim:
     for ip, n in self.names:
       obj = top
       if ip:
-        for part in ip.split("."): obj = getattr(obj, part)
+        obj = sig_of(obj, ip)
       v = sig_of(obj, n)
       out[(ip + "." if ip else "") + n] = int(v.to_bits())
     return out
@@ -150,7 +155,7 @@ class OrderRecorder:
         host = top.get_update_block_host_component(f)
         ip = repr(host)[2:]                       # "s.c1.g2" -> "c1.g2", "s" -> ""
         name = f.__name__
-        pre = "_lambda__" + repr(host).replace(".", "_") + "_"
+        pre = "_lambda__" + repr(host).replace(".", "_").replace("[", "_").replace("]", "_") + "_"
         if name.startswith(pre): name = "lam:" + name[len(pre):]      # s.x //= lambda: ...
         label = ("blk", ip, name)
         self.by_code.setdefault(id(f.__code__), []).append((host, label))
